@@ -525,7 +525,7 @@ class FnEmit:
             if p.eat(','):
                 if p.peek() != 'align': n, _ = s.typed(p)
             s.vt[dst] = PtrT(ty)
-            if n: s.emit('%s = malloc(sizeof(%s) * %s);' % (s.v(dst), s.E.cty(ty), n))
+            if n: s.emit('%s = vp_heap_alloc(sizeof(%s) * %s);' % (s.v(dst), s.E.cty(ty), n))
             else:
                 s.allocas.append((dst, ty))
                 s.emit('%s = &%s_mem;' % (s.v(dst), s.v(dst)))
@@ -533,10 +533,12 @@ class FnEmit:
         if op == 'load':
             p.eat('volatile'); p.eat('atomic')
             ty = p.type(); p.expect(','); pe, pty = s.typed(p)
+            s.emit('VP_ACCESS(%s, sizeof(*%s));' % (pe, pe))
             s.assign(dst, ty, s.mask('(*%s)' % pe, ty)); return
         if op == 'store':
             p.eat('volatile'); p.eat('atomic')
             e, ty = s.typed(p); p.expect(','); pe, pty = s.typed(p)
+            s.emit('VP_ACCESS(%s, sizeof(*%s));' % (pe, pe))
             s.emit('*%s = %s;' % (pe, e)); return
         if op == 'getelementptr':
             p.eat('inbounds'); base = p.type(); p.expect(',')
@@ -674,6 +676,8 @@ class FnEmit:
             kind = name.split('.')[1]
             const_len = re.fullmatch(r'\(\(uint64_t\)\d+ULL\)', a[2]) is not None
             if const_len:
+                s.emit('VP_ACCESS(%s, %s);' % (a[0], a[2]))
+                if kind != 'memset': s.emit('VP_ACCESS(%s, %s);' % (a[1], a[2]))
                 return '%s(%s, %s, %s)' % (kind, a[0], a[1], a[2])
             def origin(k):
                 toks = s.raw_args[k]
